@@ -275,11 +275,14 @@ package redis
 //@ func (*decoder).decodeArray
 //@   prop C10 C11
 //@   flag bounded-recursion
+//@   decreases 3 * (32 - d.depth)
+//@   requires @nesting-depth-in-range 0 <= d.depth && d.depth <= 32
+//@   ensures @nesting-depth-restored d.depth == old(d.depth)
 //@   requires decoderOK(d)
 //@   modifies all
 //@   ensures @ri d.br == old(d.br) && decoderOK(d)
 //@   ensures @bounded result1 == nil ==> len(result0) <= 1048576
-//@   loop 0 invariant d.br == old(d.br) && decoderOK(d) && len(array) == n && n <= 1048576
+//@   loop 0 invariant d.br == old(d.br) && decoderOK(d) && len(array) == n && n <= 1048576 && d.depth == old(d.depth) + 1 && d.depth <= 32
 
 //@ func (*decoder).decodeInline
 //@   prop C10 C11
@@ -288,10 +291,14 @@ package redis
 //@   ensures @ri d.br == old(d.br) && decoderOK(d)
 //@   ensures @nonempty result1 == nil ==> result0 != nil && result0.Type == 42 && len(result0.Array) >= 1
 //@   loop 0 invariant 0 <= l && l <= r + 1 && r <= len(b) + 1 && d.br == old(d.br) && decoderOK(d)
+//@   ensures @nesting-depth-untouched d.depth == old(d.depth)
 
 //@ func (*decoder).decodeResp
 //@   prop C10 C11
 //@   flag bounded-recursion
+//@   decreases 3 * (32 - d.depth) + 1
+//@   requires @nesting-depth-in-range 0 <= d.depth && d.depth <= 32
+//@   ensures @nesting-depth-restored d.depth == old(d.depth)
 //@   requires decoderOK(d)
 //@   modifies all
 //@   ensures @ri d.br == old(d.br) && decoderOK(d)
@@ -300,6 +307,9 @@ package redis
 //@ func (*decoder).decode
 //@   prop C10 C11
 //@   flag bounded-recursion
+//@   decreases 3 * (32 - d.depth) + 2
+//@   requires @nesting-depth-in-range 0 <= d.depth && d.depth <= 32
+//@   ensures @nesting-depth-restored d.depth == old(d.depth)
 //@   requires decoderOK(d)
 //@   modifies all
 //@   ensures @ri d.br == old(d.br) && decoderOK(d)
@@ -308,6 +318,8 @@ package redis
 //@ func (*decoder).Decode
 //@   prop C10 C11
 //@   requires decoderOK(d)
+//@   requires @nesting-depth-in-range 0 <= d.depth && d.depth <= 32
+//@   ensures @nesting-depth-restored d.depth == old(d.depth)
 //@   modifies all
 //@   ensures @ri d.br == old(d.br) && decoderOK(d)
 //@   ensures @value result1 == nil ==> result0 != nil
@@ -735,7 +747,7 @@ package redis
 //@   prop C02 C01
 //@   flag tokens
 //@   requires c != nil
-//@   loop 0 assume decoderOK(c.dec)
+//@   loop 0 assume decoderOK(c.dec) && c.dec.depth == 0
 
 //@ func (*client).drainRequests
 //@   prop C02
@@ -788,7 +800,7 @@ package redis
 //@   prop C01
 //@   requires s != nil && s.p != nil && s.dec != nil && s.processingReqs != nil && decoderOK(s.dec)
 //@   requires @handlers-wellformed forall k string :: has(s.p.cmdHdlrs, k) ==> s.p.cmdHdlrs[k] != nil
-//@   loop 0 assume decoderOK(s.dec)
+//@   loop 0 assume decoderOK(s.dec) && s.dec.depth == 0
 //@   assume @before:handleRequest forall k string :: has(s.p.cmdHdlrs, k) ==> s.p.cmdHdlrs[k] != nil
 //@   callpre handleRequest @the-request-just-decoded-is-dispatched arg1 == req && req.body == v && handledn - old(handledn) == sentcount(s.processingReqs) - old(sentcount(s.processingReqs))
 //@   callpre send:processingReqs @the-dispatched-request-is-queued-once arg0 == lasthandled && arg0.body == v && handledn - old(handledn) == sentcount(s.processingReqs) - old(sentcount(s.processingReqs)) + 1
